@@ -286,7 +286,7 @@ INPLACE_OK_RECEIVERS = {
 
 def r4_out_of_place(ctx):
     ctx.rule("C01.R4a", "State.put writes only through self[...] and uses out-of-place tensor operations", 3)
-    ctx.rule("C01.R4b", "no in-place tensor operation on a value read from a State (package-wide, intra-procedural taint)", 1)
+    ctx.rule("C01.R4b", "no in-place tensor operation on a value read from a State (package-wide, intra-procedural alias analysis)", 8)
     ix = ctx.ix
     f = ix.func(STATE, "State.put", "C01.R4a")
     for st in statements(f.node):
@@ -301,71 +301,13 @@ def r4_out_of_place(ctx):
         if c.func.attr.endswith("_") and not c.func.attr.startswith("__"):
             ctx.violation("C01.R4a", f, c, f"in-place tensor method `{c.func.attr}` mutates a cached value (and the REF snapshot)")
     ctx.ok("C01.R4a", f, f.node, "no in-place tensor method in State.put")
-    # R4b: package-wide taint
-    n_sites = 0
-    for fn in ix.iter_funcs():
-        tainted = set()
-        a = fn.node.args
-        state_params = {p.arg for p in a.args + a.kwonlyargs if p.annotation is not None and U(p.annotation).strip("'\"") in
-                        ("State", "Optional[State]", "VariableNameToValueMapping", "VariablesLazyValuesRO")}
-        state_like = set(state_params) | {"state"}
-
-        def is_state_read(e):
-            # state[...]  /  state.get_tensor_value(s)(...) / self.state[...] / model.state[...]
-            if isinstance(e, ast.Subscript):
-                b = e.value
-                if isinstance(b, ast.Name) and b.id in state_like:
-                    return True
-                if isinstance(b, ast.Attribute) and b.attr in ("state", "_state"):
-                    return True
-                if isinstance(b, ast.Subscript) or isinstance(b, ast.Attribute):
-                    return is_state_read(b) if isinstance(b, ast.Subscript) else False
-            if isinstance(e, ast.Call) and isinstance(e.func, ast.Attribute) and e.func.attr in ("get_tensor_value", "get_tensor_values", "__getitem__"):
-                r = e.func.value
-                if (isinstance(r, ast.Name) and r.id in state_like) or (isinstance(r, ast.Attribute) and r.attr in ("state", "_state")):
-                    return True
-            if isinstance(e, ast.Attribute) and e.attr in ("value", "weight", "T"):
-                return is_state_read(e.value)
-            return False
-
-        def is_tainted(e):
-            if is_state_read(e):
-                return True
-            if isinstance(e, ast.Name):
-                return e.id in tainted
-            if isinstance(e, ast.Attribute) and e.attr in ("value", "weight", "T", "weighted_value"):
-                return is_tainted(e.value)
-            if isinstance(e, ast.Subscript):
-                return is_tainted(e.value)
-            return False
-
-        # two passes for simple forward propagation
-        for _ in range(2):
-            for st in statements(fn.node):
-                if isinstance(st, ast.Assign) and len(st.targets) == 1:
-                    t = st.targets[0]
-                    if isinstance(t, ast.Name) and is_tainted(st.value):
-                        tainted.add(t.id)
-                    if isinstance(t, ast.Tuple) and isinstance(st.value, ast.Call) and is_state_read(st.value):
-                        for x in t.elts:
-                            if isinstance(x, ast.Name):
-                                tainted.add(x.id)
-        for n in walk_no_nested(fn.node):
-            site = None
-            if isinstance(n, ast.Call) and isinstance(n.func, ast.Attribute):
-                m = n.func.attr
-                if m.endswith("_") and not m.endswith("__") and len(m) > 1 and is_tainted(n.func.value):
-                    site = (n, f"in-place method `{m}` on a value read from the state")
-            if isinstance(n, (ast.Assign, ast.AugAssign)):
-                for t in store_targets(n):
-                    if isinstance(t, ast.Subscript) and is_tainted(t.value) and not is_state_read(t) :
-                        site = (n, "indexed store into a tensor read from the state")
-                    if isinstance(n, ast.AugAssign) and isinstance(t, ast.Name) and t.id in tainted:
-                        site = (n, "augmented assignment on a tensor read from the state (in-place for tensors)")
-            if site:
-                n_sites += 1
-                ctx.violation("C01.R4b", fn, site[0], site[1] + " - the cached value (and any REF snapshot) would change without invalidation")
-    ctx.ok("C01.R4b", (STATE, "<package>"), None, f"no in-place operation on state-derived values in {len(ix.funcs)} functions", construct="package-wide scan")
+    # R4b: package-wide alias analysis (shared with C03)
+    from ._shared import inplace_on_state_values
+    sites, holders = inplace_on_state_values(ctx)
+    for fn, node, desc in sites:
+        ctx.violation("C01.R4b", fn, node, desc + " - the cached value (and any REF snapshot) would change without invalidation")
+    for fn, names in holders:
+        ctx.ok("C01.R4b", fn, fn.node, f"locals aliasing State values {names}: never modified in place", construct=f"def {fn.name}")
 
 
 def r5_clone(ctx):
